@@ -11,7 +11,7 @@ and emits the exact rationals.  This module builds the real BayesianProblems, ca
 """
 META = {
     "claimed": True,
-    "engine": "LinGauss.tla + MapProc.tla",
+    "engine": "LinGauss.tla + MapProc.tla + MapScale.tla",
     "text": ("TLC checks on every configuration of the bounded instance (A up to 3x3, 16 input forms of noise and prior Gaussian, "
              "GMRF priors, scalar/vector means, identity-like, step-expansion and scaling geometries, matrix- and function-based "
              "models) that the direct route's Tarantola formula equals the posterior mean Lambda^-1 rhs (push-through identity), "
@@ -30,7 +30,18 @@ META = {
              "stationary point) solved by MAP / ML on the optimisation route by different BayesianProblem objects, every order "
              "explored by TLC (action Call; invariant CallsIndependent: a call works under the iteration limit of its OWN problem; "
              "deviation DefaultsLeakBetweenCalls refuted); every order is replayed in a fresh python process, each estimate is "
-             "judged by the spec's optimality conditions and must equal the outcome of the same call alone in a process."),
+             "judged by the spec's optimality conditions and must equal the outcome of the same call alone in a process.  MapScale.tla "
+             "(round 9): kind scale - PHYSICAL UNITS of a linear-Gaussian problem (operator x 2^a, unknown x 2^k, data and noise "
+             "consistently x 2^(a+k), prior x 2^k): invariant ScalingLaw (Lambda' = 4^-k Lambda, mu' = 2^k mu, cov' = 4^k cov in information "
+             "form AND in the Tarantola form the direct route evaluates from the matrix the model hands out - the matrix ASSEMBLED from "
+             "forward(e_i) for function-backed models and for matrix models with a non-identity geometry), named deviation "
+             "AssembledDropsSmallEntries (absolute threshold on stored entries) refuted; replay of MAP / direct draws for the checked "
+             "pairs, for operators 2^-50 .. 2^50 / priors 2^-25 .. 2^25 and a dense sweep of each exponent (powers of two: exact inputs, "
+             "rtol 1e-7 in the units).  Kind nograd - optimisation route WITHOUT exact gradient (forward model a plain function = "
+             "cuqi.model.Model without jacobian; Gaussian prior given by sqrtprec, which offers no gradient), n = 3, 8, 16, 32: concave "
+             "quadratic log-posterior with constructed exact maximiser (Stationary: gradient exactly 0; Curvature: A^T A - I/4 "
+             "diagonally dominant, Hessian >= (pe/4 + px) I); the returned MAP / ML point must have spec gradient <= 1e-4 (10 x the "
+             "documented gtol of the default solver) and lie within sqrt(n) 1e-4 / lambda_min of the maximiser."),
     "note": ("Bounded sizes (n, m <= 3), integer/dyadic lattice; optimisation route judged by the optimality conditions with "
              "tolerances tied to scipy's gtol=1e-5 (gradient <= 1e-4, no larger neighbour at distance 1e-2..1e-3), so only local "
              "optimality is asserted for non-convex polynomial posteriors; results flagged unsuccessful by the solver info are "
